@@ -7,7 +7,7 @@ from fractions import Fraction
 import numpy as np
 from hypothesis import strategies as st
 
-from .. import env
+from .. import env, core
 from ..core import require, must_return, same_array
 
 env.import_phylib()
@@ -68,9 +68,32 @@ def _rand_case(draw):
             'start': draw(st.integers(0, 1000)), 'tt': draw(st.sampled_from(TIME_TYPES))}
 
 
+def _big_rate_cases(th):
+    # firing-rate normaliser for cluster sizes whose product does not fit 32 bits
+    for counts in ([[46341, 46341]] if not th else [[46341, 46341], [60000, 48000, 3], [70000]]):
+        yield {'k': 'fr-big', 'counts': counts}
+
+
+@st.composite
+def _f32_case(draw):
+    # float32 spike times on a 1/16 s grid, 30 kHz: samples = k * 1875 are exact integers, beyond
+    # 2**24 they are not representable in float32 any more
+    n = draw(st.integers(2, 40))
+    k0 = draw(st.integers(9000, 200000))
+    gaps = draw(st.lists(st.integers(0, 6), min_size=n - 1, max_size=n - 1))
+    nlab = draw(st.integers(1, 3))
+    return {'k': 'f32', 'k0': k0, 'gaps': gaps,
+            'labels': draw(st.lists(st.integers(0, nlab - 1), min_size=n, max_size=n)),
+            'bw': [draw(st.integers(1, 3)), draw(st.integers(1, 12))],
+            'rate_type': draw(st.sampled_from(['int', 'float']))}
+
+
 def drivers(tier):
     th = tier == 'thorough'
     return [
+        dict(kind='enum', name='fr-big', exhaustive=False, bound='cluster sizes around 46 341',
+             cases=lambda: _big_rate_cases(th)),
+        dict(kind='hyp', name='f32', strategy=_f32_case(), examples=6000 if th else 600),
         dict(kind='enum', name='grid', exhaustive=True,
              bound='gaps in 0..3, length<=%d' % (7 if th else 5),
              cases=lambda: _grid_cases(7 if th else 5)),
@@ -93,7 +116,46 @@ def _one_sided(samples, cl, ids, b, half):
     return out
 
 
+def _check_fr_big(case):
+    counts = case['counts']
+    labels = np.concatenate([np.full(c, i, dtype=np.int32) for i, c in enumerate(counts)])
+    fr = must_return('firing_rate', firing_rate, labels, cluster_ids=list(range(len(counts))),
+                     bin_size=0.5, duration=100.0)
+    c = np.array(counts, dtype=np.float64)
+    same_array('firing_rate (large clusters)', fr, np.outer(c, c) * (0.5 / 100.0),
+               key='firing-rate', dtype=False, tol=(1e-12, 0))
+    return {'half': 0, 'edge': False}
+
+
+def _check_f32(case):
+    rate = 30000
+    ks = [case['k0']]
+    for g in case['gaps']:
+        ks.append(ks[-1] + g)
+    samples = [k * 1875 for k in ks]                     # = (k / 16 s) * 30000 Hz, exact
+    times = np.array([k / 16.0 for k in ks], dtype=np.float32)
+    if not np.array_equal(times.astype(np.float64) * 16, np.array(ks, dtype=np.float64)):
+        raise core.Reject('time not exactly representable in float32')
+    cl = [IDS[k] for k in case['labels']]
+    b, w = case['bw']                                    # in 1/16 s units
+    binsize = b * 1875
+    half = int(Fraction(w, 2 * b))
+    present = sorted(set(cl))
+    exp = _one_sided(samples, cl, present, binsize, half)
+    got = must_return('correlograms(float32 times)', correlograms, times,
+                      np.array(cl, dtype=np.int32),
+                      sample_rate=rate if case['rate_type'] == 'int' else float(rate),
+                      bin_size=b / 16.0, window_size=w / 16.0, symmetrize=False)
+    same_array('one-sided correlogram (float32 times beyond 2**24 samples)', got, exp,
+               key='one-sided', dtype=False)
+    return {'half': half, 'edge': True}
+
+
 def check(case):
+    if case.get('k') == 'fr-big':
+        return _check_fr_big(case)
+    if case.get('k') == 'f32':
+        return _check_f32(case)
     gaps, labels, (b, w) = case['gaps'], case['labels'], case['bw']
     rate = case['rate']
     samples = [case.get('start', 0)]
@@ -164,6 +226,10 @@ def check(case):
 
 
 def classify(case, info):
+    if case.get('k') == 'fr-big':
+        return ['fr-big'], True
+    if case.get('k') == 'f32':
+        return ['f32-times', 'f32:rate-' + case['rate_type']], True
     labels = [case['k'], 'rate:%d' % case['rate'], 'half:%s' % min(info['half'], 3)]
     nt = False
     if any(g == 0 for g in case['gaps']):
